@@ -41,7 +41,7 @@ ASSUMPTIONS = ['scheduling points are line events in frames of <repo>/pydbml (py
 
 def bounds(tier):
     return {'two_preemption_pairs_call_granularity': 0 if tier == 'quick' else len(SCHED2_PAIRS), 'three_thread_triples': 0 if tier == 'quick' else len(SCHED3_TRIPLES),
-            'cold_start_shared_write_pairs': 2 if tier == 'quick' else len(SCHEDW_PAIRS),
+            'cold_start_shared_write_pairs': len(SCHEDW_PAIRS),
             'cold_start_shared_write_point_stride': 8 if tier == 'quick' else 1,
             'history_length_full_alphabet': 2, 'history_length_reduced_alphabet': 3 if tier == 'quick' else 4, 'reduced_alphabet': len(reduced(tier)), 'preemptions': 1,
             'threads': 2, 'schedule_pairs': len(sched_pairs(tier)), 'calls': len(CALLS)}
@@ -148,8 +148,9 @@ BASELINE = None
 
 def init_worker():
     """per worker process: cold copy before the first parse, isolated outcomes from the cold state, census baseline"""
-    global ISOLATED, BASELINE
+    global ISOLATED, BASELINE, INTERP0
     import pydbml  # noqa
+    INTERP0 = interpreter_state()       # before the first parse of the process
     heap.cold_copy()
     ISOLATED = {}
     for call in CALLS:
@@ -206,10 +207,46 @@ def actions_fingerprint():
 # ------------------------------------------------------------------------------------------------
 # hist
 
+def interpreter_state():
+    """process-wide settings a parse has no business changing (they decide the outcome of later parses: recursion depth, number
+    conversion, thread switching, pyparsing's global switches)"""
+    import pyparsing as pp
+    return {'recursionlimit': sys.getrecursionlimit(), 'switchinterval': sys.getswitchinterval(),
+            'int_max_str_digits': sys.get_int_max_str_digits() if hasattr(sys, 'get_int_max_str_digits') else None,
+            'pp.DEFAULT_WHITE_CHARS': pp.ParserElement.DEFAULT_WHITE_CHARS, 'pp.packrat': bool(getattr(pp.ParserElement, '_packratEnabled', False)),
+            'pp.left_recursion': bool(getattr(pp.ParserElement, '_left_recursion_enabled', False)),
+            'pp.verbose_stacktrace': bool(getattr(pp.ParserElement, 'verbose_stacktrace', False))}
+
+
+INTERP0 = None
+
+
+def check_interpreter_state(p, case, what):
+    global INTERP0
+    now = interpreter_state()
+    if INTERP0 is None:
+        INTERP0 = now
+        return True
+    if now != INTERP0:
+        diff = {k: (INTERP0[k], now[k]) for k in now if now[k] != INTERP0[k]}
+        p['violations'].append(violation(PID, 'interpreter-state-changed-by-parse', case, expected={k: v[0] for k, v in diff.items()}, observed={k: v[1] for k, v in diff.items()},
+                                         detail=f'{what}: process-wide settings changed: {diff}'))
+        # put it back so that one leak is reported once, not by every later history of this worker
+        if 'recursionlimit' in diff:
+            sys.setrecursionlimit(INTERP0['recursionlimit'])
+        if 'switchinterval' in diff:
+            sys.setswitchinterval(INTERP0['switchinterval'])
+        if 'int_max_str_digits' in diff and INTERP0['int_max_str_digits'] is not None:
+            sys.set_int_max_str_digits(INTERP0['int_max_str_digits'])
+        return False
+    return True
+
+
 def run_history(p, start, hist, graph, full_snapshots):
     case = {'mode': 'hist', 'start': start, 'history': [list(c) for c in hist]}
     if start == 'cold':
         heap.cold_reset()
+    check_interpreter_state(p, case, 'before the history')
     state = heap.snapshot() if full_snapshots else None
     fp0 = actions_fingerprint()
     kept = []
@@ -222,6 +259,9 @@ def run_history(p, start, hist, graph, full_snapshots):
             i = next((k for k, (a, b) in enumerate(zip(out, ISOLATED[call])) if a != b), 0)
             p['violations'].append(violation(PID, 'outcome-depends-on-history', dict(case, step=n, call=list(call)), expected=str(ISOLATED[call][i])[:600], observed=str(out[i])[:600],
                                              detail=f'{call} after {[list(c) for c in hist[:n]]} from the {start} state: {what} differs from the isolated call (field {i})'))
+            kept.clear()
+            return
+        if not check_interpreter_state(p, dict(case, step=n, call=list(call)), f'after {call} (step {n} of {[list(c) for c in hist]})'):
             kept.clear()
             return
         if full_snapshots:
@@ -366,7 +406,7 @@ def sched_pairs(tier):
 
 
 SCHED2_PAIRS = [(('table', 'default'), ('props', 'props')), (('props', 'props'), ('semantic', 'default'))]
-SCHEDW_PAIRS = [(('table', 'default'), ('props', 'props')), (('full', 'default'), ('semantic', 'default')), (('props', 'props'), ('props', 'props'))]
+SCHEDW_PAIRS = [(('table', 'default'), ('props', 'props')), (('full', 'default'), ('semantic', 'default')), (('full', 'props'), ('props', 'props'))]
 SCHED3_TRIPLES = [(('table', 'default'), ('props', 'props'), ('semantic', 'default')), (('enum', 'default'), ('enum', 'default'), ('syntax-last', 'props'))]
 
 
@@ -613,8 +653,8 @@ def units(tier, seed):
         us.append(('fresh', k, tier))
     us.append(('freerun', 0, tier))
     if tier == 'quick':
-        # every 8th write point of two pairs (on a tree whose grammar is complete at import time there are none)
-        for pi in (0, 1):
+        # every 8th write point of the three pairs (on a tree whose grammar is complete at import time there are none)
+        for pi in (0, 1, 2):
             for ch in range(16):
                 us.append(('schedw', (pi, ch, 16, 8), tier))
     if tier != 'quick':
